@@ -1,7 +1,8 @@
-"""C14 -- loop-carried dependencies are invariant under rotation of the loop body.
-Theorems (Props/C05.v, shared): the reported set is the de-duplicated image of ALL cross-iteration dependency paths.
-The rotation-invariance theorem itself (edges of the doubled kernel are a window of the periodic stream) is NOT proved;
-the property is decided by the metamorphic oracle on the implementation below plus the LCD correspondence (partial)."""
+"""C14 -- loop-carried dependencies are invariant under rotation of the loop body.   (partial)
+Theorems: Props/C14.v -- the dependency scan is prefix-determined (edges of the doubled kernel are a window of the periodic
+stream's edges) and, for any periodic edge relation, cross-iteration paths of a rotated window correspond one to one to those of
+the unrotated one with equal members and weights; Props/C05.v -- the reported set is the de-duplicated image of ALL such paths.
+The glue between them for lcd_entries is not proved; the property is decided by the exhaustive-rotation metamorphic oracle below."""
 import depcheck
 import deps
 
@@ -11,7 +12,8 @@ FINISH = dict(level="proof",
 
 
 def run(ctx):
-    depcheck.prepare(ctx, "Props/C05.v")
+    depcheck.prepare(ctx, "Props/C14.v")
+    ctx.compile_theorems("Props/C05.v")
     ctx.assumptions += ["rotation invariance is established by exhaustive rotation of each sampled kernel on the implementation (metamorphic), "
                         "not by a Coq theorem; the Coq part is the characterisation of the LCD set (C05)"]
     cases = []
